@@ -69,7 +69,8 @@ Definition noise_decrypt_spec (r rpk prologue msg : bytes) : NM (bytes * bytes *
     end
   end.
 
-(* the repaired length guard as a boolean *)
-Definition noise_len_ok (len : nat) : bool := Nat.leb 96 len && (N.of_nat len <=? 65535).
+(* the repaired length guard as a boolean; the two bounds are the literals of noise.rs::read_message,
+   read from the sources (Noise.guard_min = x_noise_guard_min, Noise.guard_max = x_noise_guard_max) *)
+Definition noise_len_ok (len : nat) : bool := Nat.leb guard_min len && (N.of_nat len <=? guard_max).
 
 End NoiseSpec.
